@@ -196,6 +196,10 @@ func (s *Server) subscribe(requestedBurst int, subscriber string) *subscription 
 	chanSize := 200
 	var blocks []*pbbstream.Block
 
+	if requestedBurst < 0 {
+		requestedBurst = 0
+	}
+
 	if s.buffer != nil {
 		blocks = s.buffer.AllBlocks()
 
